@@ -1343,8 +1343,8 @@ class ComplexModelBase(ModelBase):
 
         dca = cls.Attributes._delayed_child_attrs
         if dca is not None:
-            if field_name in dca:
-                d_cust = dca.pop(field_name)
+            d_cust = dca.get(field_name, None)
+            if d_cust is not None:
                 field_type = field_type.customize(**d_cust)
 
         cls._type_info.insert(index, (field_name, field_type))
